@@ -118,11 +118,24 @@ def run(ctx):
             ctx.log("harness: %s" % json.dumps(meta.get("counts")))
             if meta.get("hook_problem"):
                 ob_failed.append("verif hook does not fit this tree: " + meta["hook_problem"])
-            res = ctx.coq_eval_shards(GROUP, ctx.work, meta["shards"], idents=("M", "P", "A"), timeout=1200)
+            # ycases (handler connections rendered without Content-Type on 304) are only needed to name a
+            # failing xcase: evaluate just the shards whose xcases twin reported a failure
+            first = [sh for sh in meta["shards"] if not sh.startswith("ycases_")]
+            res = ctx.coq_eval_shards(GROUP, ctx.work, first, idents=("M", "P", "A"), timeout=1200)
+            twins = [sh.replace("xcases_", "ycases_") for sh in first
+                     if sh.startswith("xcases_") and (ctx.parse_nlist((res.get(sh) or {}).get("P")) or [])]
+            twins = [sh for sh in twins if sh in meta["shards"]]
+            if twins:
+                res2 = ctx.coq_eval_shards(GROUP, ctx.work, twins, idents=("M", "P", "A"), timeout=1200)
+                res["_errors"].extend(res2.pop("_errors"))
+                res.update(res2)
+            # a twin that was not evaluated had no failing xcase: treat all its cases as failing nothing
             for shard, lg in res["_errors"]:
                 ob_failed.append("correspondence shard %s did not evaluate: %s" % (shard, lg[-600:]))
             cache = {}
             for shard in meta["shards"]:
+                if shard not in res:
+                    continue
                 r = res.get(shard) or {}
                 kind, idx = shard.split("_")[0], int(shard.split("_")[1].split(".")[0])
                 if kind not in cache:
@@ -156,9 +169,13 @@ def run(ctx):
         by_key.setdefault((classify(kind, case), kind), []).append((kind, case))
     for (key, kind), lst in sorted(by_key.items()):
         kc = smallest(lst)
+        diag = ""
+        if kind in ("ecases", "xcases"):
+            diag = " [done=%s closed=%s timed_out=%s err=%r tail=%r]" % (
+                kc[1].get("done"), kc[1].get("closed"), kc[1].get("timed_out"), kc[1].get("err", ""), kc[1].get("tail", "")[-80:])
         ctx.violation(key, dict(kind=kind, case=kc[1].get("case", kc[1])), True,
-                      "%d %s where the implementation's own output fails the C02 predicate (%s); smallest: %s"
-                      % (len(lst), kind, KINDS.get(kind, ("", ""))[1], json.dumps(kc[1])[:400]))
+                      "%d %s where the implementation's own output fails the C02 predicate (%s)%s; smallest: %s"
+                      % (len(lst), kind, KINDS.get(kind, ("", ""))[1], diag, json.dumps(kc[1].get("case", kc[1]))[:400]))
     pkeys = set((k, json.dumps(strip(c), sort_keys=True)) for k, c in prop_bad)
     only_model = [(k, c) for k, c in model_bad if (k, json.dumps(strip(c), sort_keys=True)) not in pkeys]
     by_kind = {}
